@@ -151,6 +151,11 @@ def jobs_for(nps, lps, tier, seed, variants=None, n=None, steps=None):
                 cfg.update(var)
                 if lp == "ts":
                     cfg["unit"] = 1
+                if np_ == "tree" and (lp == "ts" or (lp == "eg" and cfg.get("epsilon", 0) > 0)):
+                    # leaf policies share the bandit's main generator between the worker threads (known finding F7,
+                    # decided by C05): with several threads a run is not reproducible, so these scenarios run with one job
+                    cfg["n_jobs"] = 1
+                    cfg["backend"] = None
                 jobs.append({"name": "%s-%s-%d" % (np_, lp, i), "cfg": cfg, "seed": seed * 1000 + len(jobs), "n": n,
                              "steps": steps})
     return jobs
